@@ -8,6 +8,7 @@
 From Coq Require Import List Bool ZArith QArith Qabs.
 From PV Require Import Base.QUtil Gen.GenUnits Gen.GenLimits Model.Limits Proofs.LimitsProofs.
 From PV Require Model.Trap Proofs.TrapProofs.
+From PV Require Import Base.PWL Proofs.LimitsPWL.
 Import ListNotations.
 Open Scope Q_scope.
 
@@ -33,6 +34,19 @@ Theorem C04_ext_trap_within_relative_slack : forall sys times amps mg ms skip g,
   strictly_increasing (cg_tt g) /\ within (G * (1 + rel_slack)) (S * (1 + rel_slack)) (ext_corners g).
 Proof. exact ext_trap_within_relative. Qed.
 Print Assumptions C04_ext_trap_within_relative_slack.
+
+(* … and therefore AT EVERY TIME (Base/PWL.v: a piecewise-linear function is bounded by its corner values and
+   its segment slopes): the rendered waveform of a returned extended trapezoid never exceeds max_grad + eps and
+   never changes faster than max_slew (1 + eps). *)
+Theorem C04_ext_trap_safe_at_every_time : forall sys times amps mg ms skip g,
+  make_ext_trap sys times amps mg ms skip = LOK g ->
+  let G := eff_pos mg (s_max_grad sys) in
+  let S := eff_pos ms (s_max_slew sys) in
+  (forall t, Qabs (eval (ext_corners g) t) <= G + pp_eps) /\
+  (forall t u, inside (ext_corners g) t -> inside (ext_corners g) u ->
+     Qabs (eval (ext_corners g) t - eval (ext_corners g) u) <= S * (1 + pp_eps) * Qabs (t - u)).
+Proof. exact ext_trap_safe_everywhere. Qed.
+Print Assumptions C04_ext_trap_safe_at_every_time.
 
 (* make_arbitrary_grad: all samples and all raster steps of a returned event are within the limits *)
 Theorem C04_arb_interior_safe : forall sys wave first last delay mg ms g,
